@@ -17,12 +17,12 @@ import (
 type Kind int
 
 const (
-	KChar Kind = iota
-	KStr       // single-quoted multi-rune literal
-	KStrCI     // double-quoted (case-insensitive) literal
-	KClass     // [a-c]
-	KNegClass  // [^a]
-	KCIClass   // [[a]]
+	KChar     Kind = iota
+	KStr           // single-quoted multi-rune literal
+	KStrCI         // double-quoted (case-insensitive) literal
+	KClass         // [a-c]
+	KNegClass      // [^a]
+	KCIClass       // [[a]]
 	KDot
 	KRef
 	KSeq
@@ -382,15 +382,29 @@ func quoteRune(c rune) string {
 	return string(c)
 }
 
+// precedence levels of the .peg syntax: choice < sequence < prefix < suffix < primary
+func level(e *Expr) int {
+	switch e.Kind {
+	case KChoice:
+		return 0
+	case KSeq:
+		return 1
+	case KAnd, KNot, KPred:
+		return 2
+	case KStar, KPlus, KOpt:
+		return 3
+	case KEmpty:
+		return 0
+	}
+	return 4
+}
+
 func (g *Grammar) render(e *Expr, sb *strings.Builder, prec int) {
-	paren := func(p int, f func()) {
-		if p < prec {
-			sb.WriteString("(")
-			f()
-			sb.WriteString(")")
-		} else {
-			f()
-		}
+	if level(e) < prec {
+		sb.WriteString("(")
+		g.render(e, sb, 0)
+		sb.WriteString(")")
+		return
 	}
 	switch e.Kind {
 	case KChar:
@@ -418,32 +432,28 @@ func (g *Grammar) render(e *Expr, sb *strings.Builder, prec int) {
 	case KRef:
 		fmt.Fprintf(sb, "R%d", e.Ref)
 	case KSeq:
-		paren(1, func() {
-			for i, k := range e.Kids {
-				if i > 0 {
-					sb.WriteString(" ")
-				}
-				g.render(k, sb, 2)
+		for i, k := range e.Kids {
+			if i > 0 {
+				sb.WriteString(" ")
 			}
-		})
+			g.render(k, sb, 2)
+		}
 	case KChoice:
-		paren(0, func() {
-			for i, k := range e.Kids {
-				if i > 0 {
-					sb.WriteString(" / ")
-				}
-				g.render(k, sb, 1)
+		for i, k := range e.Kids {
+			if i > 0 {
+				sb.WriteString(" / ")
 			}
-		})
+			g.render(k, sb, 1)
+		}
 	case KStar, KPlus, KOpt:
-		g.render(e.Kids[0], sb, 3)
+		g.render(e.Kids[0], sb, 4)
 		sb.WriteString(map[Kind]string{KStar: "*", KPlus: "+", KOpt: "?"}[e.Kind])
 	case KAnd:
 		sb.WriteString("&")
-		g.render(e.Kids[0], sb, 3)
+		g.renderPrefixOperand(e.Kids[0], sb)
 	case KNot:
 		sb.WriteString("!")
-		g.render(e.Kids[0], sb, 3)
+		g.renderPrefixOperand(e.Kids[0], sb)
 	case KCapture:
 		sb.WriteString("<")
 		g.render(e.Kids[0], sb, 0)
@@ -463,6 +473,18 @@ func (g *Grammar) render(e *Expr, sb *strings.Builder, prec int) {
 	case KEmpty:
 		// nothing: an empty alternative
 	}
+}
+
+// renderPrefixOperand: "&{" and "!{" are the predicate / state-change
+// syntax, so an action operand must be parenthesised.
+func (g *Grammar) renderPrefixOperand(e *Expr, sb *strings.Builder) {
+	if e.Kind == KAction {
+		sb.WriteString("(")
+		g.render(e, sb, 0)
+		sb.WriteString(")")
+		return
+	}
+	g.render(e, sb, 3)
 }
 
 // Text renders the grammar in .peg syntax.
